@@ -1,29 +1,69 @@
-// replay driver (appended to acts/src/scheduler/tests/step/timeout.rs of a scratch copy):
-// a timeout rule must not fire for a task that reached a terminal state before the limit (property C19).
+// replay / bounded stand-in driver (appended to acts/src/scheduler/tests/step/timeout.rs of a scratch copy): property C19.
+// 4 histories on the real engine (test tick = 0.9 s): (1) a rule must not fire for a task that reached a terminal state before the limit;
+// (2) a 1s rule of an open act fires exactly once, not before 1 s, within the limit plus two ticks, and the act stays open;
+// (3) two tasks with rules, one of them unparsable ("2w"): the well-formed rule of the other task still fires once;
+// (4) two rules on ONE task, the first unparsable: the well-formed second rule still fires once.
 #[tokio::test]
 async fn verif_replay_hist_timeout() {
-    // step1 has a 1s rule and one irq act that is answered at once; step2 keeps the process running.
-    let mut workflow = Workflow::new()
-        .with_step(|step| {
-            step.with_id("step1")
-                .with_timeout(|t| t.with_on("1s").with_step(|step| step.with_id("step_t").with_act(Act::msg(|msg| msg.with_key("tmo")))))
-                .with_act(Act::irq(|act| act.with_key("act1")))
-        })
-        .with_step(|step| step.with_id("step2").with_act(Act::irq(|act| act.with_key("act2"))));
-    let (proc, scher, emitter, tx, rx) = create_proc_signal::<Vec<String>>(&mut workflow, &utils::longid());
-    let rx2 = rx.clone();
-    emitter.on_message(move |e| {
-        if e.is_key("act1") && e.is_state(crate::MessageState::Created) {
-            e.do_action(&e.pid, &e.tid, crate::event::EventAction::Next, &crate::Vars::new()).unwrap();
-            rx.update(|d| d.push("act1-completed".to_string()));
+    let mut bad: Vec<String> = Vec::new();
+    // ---- history 1
+    {
+        let mut workflow = Workflow::new()
+            .with_step(|step| {
+                step.with_id("step1")
+                    .with_timeout(|t| t.with_on("1s").with_step(|step| step.with_id("step_t").with_act(Act::msg(|msg| msg.with_key("tmo")))))
+                    .with_act(Act::irq(|act| act.with_key("act1")))
+            })
+            .with_step(|step| step.with_id("step2").with_act(Act::irq(|act| act.with_key("act2"))));
+        let (proc, scher, emitter, tx, rx) = create_proc_signal::<Vec<String>>(&mut workflow, &utils::longid());
+        let rx2 = rx.clone();
+        emitter.on_message(move |e| {
+            if e.is_key("act1") && e.is_state(crate::MessageState::Created) {
+                e.do_action(&e.pid, &e.tid, crate::event::EventAction::Next, &crate::Vars::new()).unwrap();
+                rx.update(|d| d.push("act1-completed".to_string()));
+            }
+            if e.is_key("tmo") { rx.update(|d| d.push("TIMEOUT-FIRED".to_string())); }
+        });
+        scher.launch(&proc);
+        tokio::spawn(async move { tokio::time::sleep(std::time::Duration::from_millis(3500)).await; rx2.close(); });
+        let log = tx.recv().await;
+        let st = proc.task_by_nid("step1").first().map(|t| t.state());
+        if log.iter().any(|l| l == "TIMEOUT-FIRED") { bad.push(format!("REPLAY-FAIL timeout rule 1s of step1 fired although step1 was already {:?} (act answered at once); log={:?}", st, log)); }
+    }
+    // ---- histories 2-4: count the firings of the well-formed 1s rule (`fired`) and of the unparsable one (`never`)
+    for h in 2..=4 {
+        let mut workflow = match h {
+            2 => Workflow::new().with_step(|step| step.with_id("step1").with_act(Act::irq(|a| a.with_key("act1")).with_id("act1")
+                    .with_timeout(|t| t.with_on("1s").with_step(|s| s.with_act(Act::msg(|m| m.with_key("fired"))))))),
+            3 => Workflow::new().with_step(|step| step.with_id("step1")
+                    .with_timeout(|t| t.with_on("2w").with_step(|s| s.with_act(Act::msg(|m| m.with_key("never")))))
+                    .with_act(Act::irq(|a| a.with_key("act1")).with_id("act1")
+                        .with_timeout(|t| t.with_on("1s").with_step(|s| s.with_act(Act::msg(|m| m.with_key("fired"))))))),
+            _ => Workflow::new().with_step(|step| step.with_id("step1").with_act(Act::irq(|a| a.with_key("act1")).with_id("act1")
+                    .with_timeout(|t| t.with_on("2w").with_step(|s| s.with_act(Act::msg(|m| m.with_key("never")))))
+                    .with_timeout(|t| t.with_on("1s").with_step(|s| s.with_act(Act::msg(|m| m.with_key("fired"))))))),
+        };
+        let (proc, scher, emitter, tx, rx) = create_proc_signal::<Vec<String>>(&mut workflow, &utils::longid());
+        let rx2 = rx.clone();
+        let t0 = std::time::Instant::now();
+        emitter.on_message(move |e| {
+            if e.is_key("fired") { rx.update(|d| d.push(format!("fired@{}", t0.elapsed().as_millis()))); }
+            if e.is_key("never") { rx.update(|d| d.push("never".to_string())); }
+        });
+        scher.launch(&proc);
+        tokio::spawn(async move { tokio::time::sleep(std::time::Duration::from_millis(4500)).await; rx2.close(); });
+        let log = tx.recv().await;
+        let fired: Vec<u128> = log.iter().filter_map(|l| l.strip_prefix("fired@").and_then(|x| x.parse().ok())).collect();
+        let act = proc.task_by_nid("act1").first().map(|t| t.state());
+        let what = match h { 2 => "1s rule on an open act", 3 => "1s rule on act1 beside an unparsable rule (2w) on step1", _ => "1s rule declared after an unparsable rule (2w) on the same act" };
+        if fired.len() != 1 { bad.push(format!("REPLAY-FAIL {what}: fired {} time(s) in 4.5 s (expected exactly once); log={log:?}", fired.len())); }
+        if let Some(ms) = fired.first() {
+            if *ms < 1000 { bad.push(format!("REPLAY-FAIL {what}: fired after {ms} ms, before the 1 s limit")); }
+            if *ms > 1000 + 2 * 900 + 300 { bad.push(format!("REPLAY-FAIL {what}: fired after {ms} ms, later than the limit plus two ticks")); }
         }
-        if e.is_key("tmo") { rx.update(|d| d.push("TIMEOUT-FIRED".to_string())); }
-    });
-    scher.launch(&proc);
-    tokio::spawn(async move { tokio::time::sleep(std::time::Duration::from_millis(3500)).await; rx2.close(); });
-    let log = tx.recv().await;
-    let st = proc.task_by_nid("step1").first().map(|t| t.state());
-    let fired = log.iter().any(|l| l == "TIMEOUT-FIRED");
-    if fired { println!("REPLAY-FAIL timeout rule 1s of step1 fired although step1 was already {:?} (act answered at once); log={:?}", st, log); }
-    assert!(!fired);
+        if log.iter().any(|l| l == "never") { bad.push(format!("REPLAY-FAIL {what}: the unparsable rule fired")); }
+        if act != Some(crate::TaskState::Interrupt) { bad.push(format!("REPLAY-FAIL {what}: the timed act is {act:?}, firing must not close it")); }
+    }
+    for b in bad.iter() { println!("{b}"); }
+    assert!(bad.is_empty());
 }
